@@ -204,10 +204,11 @@ def execute(w, seed, strategy="random", forced=None, strict=False):
                 elif not P.rows_equal(res["rows"], pr.oracle[target]):
                     vio = Violation("WRONG_ROWS", "fault did not fire and rows differ", "")
             elif out[0] == "ok":
-                # corrupted-but-decodable loader data is caught by the row count check only if n differs;
-                # a flipped byte in a compressed frame normally fails decompression.
-                if ft == "loader_eio" and f["how"] == "read_corrupt" and P.rows_equal(res["rows"], pr.oracle[target]):
-                    pass    # the flipped byte did not change the decoded rows (e.g. header slack)
+                if ft == "loader_eio" and f["how"] == "read_corrupt":
+                    # a flipped stored byte is not an exception: unless something raises because of it (most
+                    # compressed frames fail to decode, metadata fails to parse) the property's antecedent does
+                    # not hold, and strax keeps no checksums that would promise detection
+                    pass
                 else:
                     vio = Violation("SWALLOWED", f"{ft}: the call returned normally although the failure happened",
                                     f"fired={fired} yielded={res['n_yielded']}")
@@ -221,7 +222,9 @@ def execute(w, seed, strategy="random", forced=None, strict=False):
                 elif ft == "saver_eio":
                     ok = (isinstance(e, OSError) or isinstance(rc, OSError)) and "[dst-fault]" in text
                 elif ft == "loader_eio":
-                    ok = "[dst-fault]" in text or type(e).__name__ == "DataCorrupted"
+                    # a corrupted read surfaces as whatever the damaged bytes lead to (decoder error, DataCorrupted,
+                    # a chunk file name that no longer exists ...): any exception is the original one
+                    ok = "[dst-fault]" in text or f["how"] == "read_corrupt"
                 elif ft == "stalled_source":
                     ok = type(e).__name__ == "InputTimeoutExceeded"
                 if not ok:
